@@ -104,7 +104,7 @@ func (g *gen) stmt() string {
 	any1 := anyPool[g.r.Intn(len(anyPool))]
 	any2 := anyPool[g.r.Intn(len(anyPool))]
 	cmp := cmpPool[g.r.Intn(len(cmpPool))]
-	switch g.r.Intn(12) {
+	switch g.r.Intn(14) {
 	case 0:
 		g.feat["inst:pair"]++
 		return fmt.Sprintf("_ = g.MakePair[%s, %s](g.Zero[%s](), g.Zero[%s]())", cmp, any1, cmp, any1)
@@ -139,6 +139,9 @@ func (g *gen) stmt() string {
 	case 10:
 		g.feat["inst:local-generic"]++
 		return fmt.Sprintf("n += len(local[%s](g.Zero[%s](), %d))", any1, any1, 1+g.r.Intn(3))
+	case 11:
+		g.feat["inst:through-generic-wrapper"]++
+		return fmt.Sprintf("n += Wrap[%s](g.Zero[%s]()).Get().Len() + len(g.Describe[%s](PairUp[%s, %s](g.Zero[%s](), g.Zero[%s]()).Val.V))", any1, any1, any2, cmp, any2, cmp, any2)
 	default:
 		g.feat["inst:describe"]++
 		return fmt.Sprintf("n += len(g.Describe[%s](g.Zero[%s]()))", any1, any1)
@@ -149,6 +152,9 @@ func (g *gen) funcs(pkg string, nf int) (string, []string) {
 	var b strings.Builder
 	var names []string
 	b.WriteString("type myInt int\n\nfunc local[T any](x T, k int) []T {\n\tout := make([]T, k)\n\tfor i := range out {\n\t\tout[i] = x\n\t}\n\treturn out\n}\n\n")
+	// generic code of this package that instantiates generics of package g with its own type parameters:
+	// the instances of g are then discovered while processing another package's instances
+	b.WriteString("func Wrap[T any](x T) g.Box[g.List[T]] { return g.Nest(x) }\n\nfunc PairUp[K comparable, V any](k K, v V) g.Pair[K, g.Box[V]] {\n\treturn g.MakePair(k, g.Box[V]{V: v})\n}\n\n")
 	for i := 0; i < nf; i++ {
 		name := fmt.Sprintf("F%d", i)
 		names = append(names, name)
@@ -173,6 +179,12 @@ func Generate(r *rng.R, multi bool, module string) *Program {
 		// split a user package over two files sometimes
 		src := fmt.Sprintf("package u%d\n\nimport \""+module+"/g\"\n\nvar _ = g.Zero[int]\n\n%s", u, body)
 		p.Files[fmt.Sprintf("u%d/u%d.go", u, u)] = src
+		if u == 0 && r.Chance(1, 2) {
+			g.feat["inc-js-files"]++
+			p.Files["u0/b_first.inc.js"] = "$global.genIncOrder = ($global.genIncOrder || \"\") + \"b\";\n"
+			p.Files["u0/a_second.inc.js"] = "$global.genIncOrder = ($global.genIncOrder || \"\") + \"a\";\n"
+			p.Files["u0/zz.inc.js"] = "$global.genIncOrder = ($global.genIncOrder || \"\") + \"z\";\n"
+		}
 		for _, n := range names {
 			userCalls = append(userCalls, fmt.Sprintf("u%d.%s()", u, n))
 		}
